@@ -172,6 +172,11 @@ def gen_cases(tier, seed):
                   "oo": {"optimize_with_flow_safe_paths": False, "optimize_with_safe_paths": False, "optimize_with_safe_sequences": True, "optimize_with_greedy": False},
                   "spec": {"nodes": [["1", {}], ["2", {}], ["3", {}], ["4", {}]], "graph": {},
                            "edges": [["1", "4", {"flow": 5000000}], ["2", "3", {"flow": 14000000}], ["2", "4", {"flow": 13000000}], ["3", "4", {"flow": 14000000}]]}})
+    # corpus (thorough tier, seed 0): at magnitude 1e7 the minimum-generating-set model overshoots (known finding; with presolve off that model does not finish)
+    cases.append({"mode": "edge", "wt": "int", "cons": [], "cov": 1.0, "ignore": [], "planted": 0, "mag": "1e6", "oo": {"use_min_gen_set_lowerbound": True},
+                  "spec": {"nodes": [[str(i), {}] for i in range(7)], "graph": {},
+                           "edges": [[u, v, {"flow": f * 10 ** 6}] for u, v, f in (("0", "3", 5), ("0", "5", 11), ("1", "2", 11), ("1", "3", 17), ("1", "5", 7), ("1", "6", 13),
+                                                                                  ("2", "4", 11), ("3", "4", 5), ("3", "5", 17), ("4", "6", 16))]}})
     return cases
 
 
